@@ -4,7 +4,7 @@ from checks import proc_common as pc
 ID = "C02"
 LEVEL = "proof"
 MODULE = "NrDaemon.Props.C02"
-PREFIX = ("C02",)
+PREFIX = ("C02", "C01 reservoir", "C01 split")   # the hand-back of a failed payload must neither lose nor duplicate what fits
 RULE = ("engine proc: the real Processor in lock-step (trackProgress) with a scripted collector client in which every request parks "
         "until answered; histories of 1-3 applications: transactions (real flatbuffers through processBinary/AggregateInto), harvest "
         "triggers with every mask (all, default data, single and combined event categories), replies in any order relative to later "
